@@ -42,7 +42,7 @@ def plan(tier):
 
 def describe(tier):
     return {
-        'rule': 'circ: every circuit of F(n,k,FMT) (14 format types at format arities - constants carry two operands; n>=0) and F(n,k,EXT) (3/4-ary gates, '
+        'rule': 'bytes(writer) read after every single write (an observation must not change what is written next); circ: every circuit of F(n,k,FMT) (14 format types at format arities - constants carry two operands; n>=0) and F(n,k,EXT) (3/4-ary gates, '
         'L*/R* types, constants with 0/1 operands) x outputs (all sequences of length 0..2) x object/storage variants (creation; copy.deepcopy; pickle round trip; declared input order reversed / rotated; every '
         'order reachable by renaming each gate away and back) -> encode/decode; structural '
         'comparison up to renaming + truth tables. bits: every bit string of length<=12, every write_number(v,len) '
@@ -198,6 +198,18 @@ def check_bits(acc):
                 w.write(b)
             data = bytes(w)
             case = {'bits': ''.join('1' if b else '0' for b in bits)}
+            # looking at the bytes so far is an observation: a writer that is read after every write must end
+            # with the same bytes, and every intermediate reading is the encoding of the prefix written so far
+            w2 = BitWriter()
+            prefix_ok = bytes(w2) == b''
+            for i, b in enumerate(bits):
+                w2.write(b)
+                mid = bytes(w2)
+                rr = BitReader(mid)
+                if len(mid) != (i + 8) // 8 or [rr.read() for _ in range(i + 1)] != list(bits[:i + 1]):
+                    prefix_ok = False
+            if not prefix_ok or bytes(w2) != data:
+                acc.violation('bit_io/reading-the-bytes-changes-the-writer', case, f'{bytes(w2)!r} vs {data!r}')
             if len(data) != (ln + 7) // 8:
                 acc.violation('bit_io/byte-length', case, len(data))
             r = BitReader(data)
